@@ -155,7 +155,111 @@ def _fname(rx):
     return hashlib.md5(f"{rx.pattern}|{rx.flags}".encode()).hexdigest()[:8]
 
 
+def _flat_pieces(tr_obj):
+    """Top-level items of the pattern as (group number or None, z3 re), or None when groups are nested."""
+    tree = sre_parse.parse(tr_obj.pattern, tr_obj.flags)
+    items = list(tree)
+    if items and items[-1][0] == sre_c.AT and items[-1][1] in (sre_c.AT_END, sre_c.AT_END_STRING):
+        items = items[:-1]
+    pieces = []
+    t2 = Translated.__new__(Translated)
+    t2.pattern, t2.flags, t2.groups, t2.digit_groups, t2.ic = tr_obj.pattern, tr_obj.flags, {}, set(), tr_obj.ic
+    for op, av in items:
+        before = len(t2.groups)
+        r = t2.one(op, av)
+        if op == sre_c.SUBPATTERN and av[0] is not None:
+            if len(t2.groups) - before != 1:
+                return None            # nested groups
+            pieces.append((av[0], r, (op, av)))
+        else:
+            if len(t2.groups) != before:
+                return None
+            pieces.append((None, r, (op, av)))
+    return pieces
+
+
+def _lazy_min_group(piece):
+    """Is this piece a group of the form (.+?) / (.*?) ?  -> (is_lazy, min_len)"""
+    op, av = piece[2]
+    if op != sre_c.SUBPATTERN:
+        return False, 0
+    sub = list(av[3])
+    if len(sub) == 1 and sub[0][0] == sre_c.MIN_REPEAT and list(sub[0][1][2]) == [(sre_c.ANY, None)]:
+        return True, sub[0][1][0]
+    return False, 0
+
+
+def match_with_groups(interp, rx, text):
+    """Exact match truth; on success the groups form SOME decomposition text = p1 ++ p2 ++ ... (each piece in its language),
+    which the real (backtracking) groups do; for a leading lazy group `(.+?)`/`(.*?)` followed by a suffix-closed remainder the
+    minimality of that group is added."""
+    tr = translate(rx)
+    ok = z3.InRe(text, tr.match_re())
+    pieces = _flat_pieces(tr)
+    if pieces is None:
+        return ok, None
+    run = interp.run
+    parts, groups = [], {}
+    for k, (g, r, raw) in enumerate(pieces):
+        v = z3.String(fresh_name(f"re_piece{k}"))
+        parts.append(v)
+        run.assume(z3.Implies(ok, z3.InRe(v, r)))
+        if g is not None:
+            groups[g] = v
+    tail = z3.String(fresh_name("re_tail"))
+    if tr.anchored_end:
+        run.assume(z3.Implies(ok, tail == z3.StringVal("")))
+    whole = z3.Concat(parts + [tail]) if parts else tail
+    run.assume(z3.Implies(ok, text == whole))
+    al = interp.__dict__.get("alphabets", {}).get(text.sexpr())
+    if al is not None:
+        for v in parts:
+            run.assume(z3.Implies(ok, z3.InRe(v, z3.Star(_chars_re(al)))))
+            interp.alphabets[v.sexpr()] = al
+    # minimality of a leading lazy group
+    if pieces and pieces[0][0] is not None and tr.anchored_end:
+        lazy, mn = _lazy_min_group(pieces[0])
+        if lazy and len(pieces) >= 2:
+            rest_re = z3.Concat([p[1] for p in pieces[1:]]) if len(pieces) > 2 else pieces[1][1]
+            # is the remainder language suffix-closed?  (c.w in R  =>  w in R)   -- checked, not assumed
+            c, w = z3.String(fresh_name("c")), z3.String(fresh_name("w"))
+            sol = z3.Solver()
+            sol.set("timeout", 10000)
+            sol.add(z3.Length(c) == 1, z3.InRe(z3.Concat(c, w), rest_re), z3.Not(z3.InRe(w, rest_re)))
+            if sol.check() == z3.unsat:
+                g1 = parts[0]
+                rest = z3.Concat(parts[1:] + [tail]) if len(parts) > 1 else tail
+                last = z3.SubString(g1, z3.Length(g1) - 1, 1)
+                run.assume(z3.Implies(z3.And(ok, z3.Length(g1) > mn), z3.Not(z3.InRe(z3.Concat(last, rest), rest_re))))
+                # consequence in a form the solvers digest: characters c with c.R included in R cannot end a minimal group
+                absorbing = []
+                for code in range(128):
+                    if code == 10:
+                        continue
+                    s2 = z3.Solver()
+                    s2.set("timeout", 2000)
+                    w2 = z3.String(fresh_name("w"))
+                    s2.add(z3.InRe(w2, rest_re), z3.Not(z3.InRe(z3.Concat(z3.StringVal(chr(code)), w2), rest_re)))
+                    if s2.check() == z3.unsat:
+                        absorbing.append(code)
+                if absorbing:
+                    run.assume(z3.Implies(z3.And(ok, z3.Length(g1) > mn), z3.Not(z3.InRe(last, _chars_re(absorbing)))))
+                interp.trusted.add("re: a leading lazy group followed by a suffix-closed remainder (closure checked by z3) is the SHORTEST admissible prefix")
+    interp.trusted.add("re: Pattern.match(s) succeeds iff s is in R.Sigma*; on success the groups are the pieces of SOME decomposition "
+                       "s = p1 ++ p2 ++ ... with each piece in its sub-pattern's language (ASCII)")
+    return ok, groups
+
+
 def regex_method(interp, recv, name, args, kwargs, fr):
+    if name == "match" and getattr(interp.top, "regex_decomposition", False):
+        text = zstr(args[0])
+        ok, groups = match_with_groups(interp, recv, text)
+        if groups is not None:
+            m = MatchV(recv, text, translate(recv))
+            m.groups_map = groups
+            return OptV(z3.Not(ok), m)
+    if name == "sub":
+        return regex_sub(interp, recv, args[0], zstr(args[1]), fr)
     if name == "match":
         text = zstr(args[0])
         tr = translate(recv)
@@ -175,7 +279,41 @@ def regex_method(interp, recv, name, args, kwargs, fr):
     raise Unsupported(f"regex method {name}")
 
 
+def regex_sub(interp, rx, repl, text, fr):
+    """Pattern.sub(repl, s) for a pattern that is ONE character class repeated (`[..]+`): sound facts about the result:
+    it consists of kept characters (those outside the class) and copies of `repl`; it equals s when s has no character of the class;
+    it is empty only if s is."""
+    if not isinstance(repl, str):
+        raise Unsupported("regex sub with a symbolic replacement")
+    tree = list(sre_parse.parse(rx.pattern, rx.flags))
+    if not (len(tree) == 1 and tree[0][0] in (sre_c.MAX_REPEAT, sre_c.MIN_REPEAT) and tree[0][1][0] >= 1
+            and len(list(tree[0][1][2])) == 1 and list(tree[0][1][2])[0][0] == sre_c.IN):
+        raise Unsupported(f"regex sub for pattern {rx.pattern!r} (only `[class]+` is modelled)")
+    codes = _class_codes(list(tree[0][1][2])[0][1], bool(rx.flags & re.I))
+    kept = _chars_re(set(range(128)) - codes)
+    out = z3.String(fresh_name("sub"))
+    unit = z3.Union(kept, z3.Re(repl)) if repl else kept
+    run = interp.run
+    run.assume(z3.InRe(out, z3.Star(unit)))
+    # alphabet bookkeeping: every substring / piece of `out` is over the same characters (sound; helps the string solvers)
+    alpha = (set(range(128)) - codes) | {ord(ch) for ch in repl}
+    interp.__dict__.setdefault("alphabets", {})[out.sexpr()] = alpha
+    run.assume(z3.Implies(z3.InRe(text, z3.Star(kept)), out == text))
+    run.assume(z3.Length(out) <= z3.Length(text) * max(1, len(repl)))
+    run.assume((z3.Length(out) == 0) == (z3.Length(text) == 0) if repl else z3.Length(out) <= z3.Length(text))
+    interp.trusted.add("re: Pattern.sub(r, s) for a `[class]+` pattern: the result is made of the characters of s outside the class and copies of r, "
+                       "equals s when s has no character of the class, and is empty only if s is (r non-empty)")
+    return out
+
+
 def match_method(interp, m, name, args, kwargs, fr):
+    gm = getattr(m, "groups_map", None)
+    if gm is not None:
+        if name == "groups":
+            return tuple(gm[g] for g in sorted(gm))
+        if name == "group" and args and args[0] in gm:
+            return gm[args[0]]
+
     def grp(g):
         gf = z3.Function(f"re_group_{_fname(m.rx)}_{g}", z3.StringSort(), z3.StringSort())
         return gf(m.text)
@@ -223,5 +361,21 @@ def str_method(interp, recv, name, args, kwargs, fr):
         r = f(zstr(recv))
         if name == "strip":
             interp.run.assume(f(r) == r)      # idempotence (true of str.strip)
+            if getattr(interp.top, "regex_decomposition", False):
+                # exact: s = a ++ strip(s) ++ b with a, b blank and strip(s) without blank edges (ASCII blanks as measured)
+                ws = _chars_re(_SPACE)
+                nows = _chars_re(set(range(128)) - set(_SPACE))
+                a, b = z3.String(fresh_name("lead")), z3.String(fresh_name("trail"))
+                run = interp.run
+                run.assume(zstr(recv) == z3.Concat(a, r, b))
+                run.assume(r == z3.SubString(zstr(recv), z3.Length(a), z3.Length(r)))
+                al = interp.__dict__.get("alphabets", {}).get(zstr(recv).sexpr())
+                if al is not None:
+                    run.assume(z3.InRe(r, z3.Star(_chars_re(al))))
+                    interp.alphabets[r.sexpr()] = al
+                run.assume(z3.InRe(a, z3.Star(ws)))
+                run.assume(z3.InRe(b, z3.Star(ws)))
+                anyc = z3.Star(_chars_re(range(128)))
+                run.assume(z3.InRe(r, z3.Union(z3.Re(""), nows, z3.Concat(nows, anyc, nows))))
         return r
     raise Unsupported(f"str.{name}")
